@@ -141,6 +141,40 @@ def run_case(ctx, kind, rng, idx):
                         np.abs(rp[src + snk]).max() > 1e-12:
                     ctx.violation('reactive-populations.wrong',
                                   '[%s] not pi q+ q- normalised' % cname)
+    # the same matrix object refilled in place (a sweep over models reusing
+    # one buffer) with the same sources/sinks: results follow the contents
+    if idx % 2 == 0:
+        T2, pi2 = mc.reversible_chain(rng, n=n)
+        q2 = np.zeros(n)
+        q2[snk] = 1
+        if inter:
+            A2 = np.eye(len(inter)) - T2[np.ix_(inter, inter)]
+            q2[inter] = np.linalg.solve(A2, T2[np.ix_(inter, snk)].sum(axis=1))
+        F2 = pi2[:, None] * (1 - q2)[:, None] * T2 * q2[None, :]
+        F2[np.diag_indices(n)] = 0
+        for cname in ('ndarray', 'csr'):
+            buf = mc.to_container(T, cname)
+            try:
+                tpt.net_fluxes(buf, src, snk, populations=pi.copy())
+                if cname == 'ndarray':
+                    buf[...] = T2
+                else:
+                    buf.data[:] = 0
+                    buf = buf            # same object, new contents below
+                    B2 = mc.to_container(T2, 'csr')
+                    buf.indices, buf.indptr, buf.data = \
+                        B2.indices.copy(), B2.indptr.copy(), B2.data.copy()
+                f2 = mc.dense(tpt.reactive_fluxes(buf, src, snk,
+                                                  populations=pi2.copy()))
+                ctx.count('refilled_matrix_calls')
+                if np.abs(np.asarray(f2, dtype=float) - F2).max() > tol:
+                    ctx.violation('flux.stale-after-refill',
+                                  '[%s] the same matrix object refilled with '
+                                  'another chain: fluxes do not follow the '
+                                  'new contents (max diff %.3g)' % (
+                                      cname, np.abs(f2 - F2).max()))
+            except Exception as e:  # noqa
+                ctx.crash('flux.refill.raised', e)
     if 'ndarray' in res:
         for c, nf in res.items():
             if np.abs(nf - res['ndarray']).max() > tol:
